@@ -69,6 +69,9 @@ fn parse_tag(s: &str) -> Option<Tag> {
         all_tags().into_iter().find(|t| tag_ident(t) == id)
     } else if let Some(h) = s.strip_prefix('o') {
         unhex_str(h).map(|s| Tag::Other(s.into()))
+    } else if let Some(h) = s.strip_prefix('p') {
+        // the way an application gets a tag from a name it was given: the checked, case-insensitive conversion
+        unhex_str(h).and_then(|s| Tag::try_from(&*s).ok())
     } else {
         None
     }
@@ -108,7 +111,7 @@ fn parse_param(t: &str) -> Option<P> {
             }
             Some(P::Dur(Duration::new(parse_u64(s)?, n as u32)))
         }
-        "t" | "o" => Some(P::Tg(parse_tag(t)?)),
+        "t" | "o" | "p" => Some(P::Tg(parse_tag(t)?)),
         "T" => {
             if r.is_empty() {
                 Some(P::Tgs(Vec::new()))
